@@ -241,7 +241,9 @@ def gen_wrapper(rng, X, depth=None, kinds=("b", "t", "c")):
         if layer["okind"] in ("N", "C", "D") and not layer["blank"]:
             # the next line is the inner opening fence or X[0]; a colon fence line starts with ':'
             nxt_is_colon = (i < depth - 1 and layers[i + 1]["k"] == "c")
-            if nxt_is_colon or (inner_first is not None and inner_first.lstrip().startswith(":")):
+            if nxt_is_colon and layer["k"] == "c" and layer["okind"] == "N":
+                pass    # ":::" directly after a colon opening line: render_colon_fence's own case
+            elif nxt_is_colon or (inner_first is not None and inner_first.lstrip().startswith(":")):
                 if layer["okind"] == "N":
                     layer["okind"] = "B"
                 else:
